@@ -62,6 +62,8 @@ type Conn struct {
 	local, remote addr
 	closeOnce     sync.Once
 	done          chan struct{}
+	paused        atomic.Bool
+	resume        chan struct{}
 
 	mu         sync.Mutex
 	reads      int
@@ -86,8 +88,8 @@ func Pipe() (*Conn, *Conn) {
 	ab, ba := newPipe(), newPipe()
 	n := pipeSeq.Add(1)
 	ca, cb := addr(fmt.Sprintf("memnet-client-%d", n)), addr(fmt.Sprintf("memnet-server-%d", n))
-	a := &Conn{rd: ba, wr: ab, local: ca, remote: cb, done: make(chan struct{})}
-	b := &Conn{rd: ab, wr: ba, local: cb, remote: ca, done: make(chan struct{})}
+	a := &Conn{rd: ba, wr: ab, local: ca, remote: cb, done: make(chan struct{}), resume: make(chan struct{}, 1)}
+	b := &Conn{rd: ab, wr: ba, local: cb, remote: ca, done: make(chan struct{}), resume: make(chan struct{}, 1)}
 	return a, b
 }
 
@@ -130,6 +132,15 @@ func (c *Conn) Read(p []byte) (int, error) {
 		case <-c.done:
 			return 0, Closed("read")
 		default:
+		}
+		if c.paused.Load() {
+			// the application on this end has stopped reading: block even if data is available
+			select {
+			case <-c.resume:
+				continue
+			case <-c.done:
+				return 0, Closed("read")
+			}
 		}
 		c.rd.mu.Lock()
 		if len(c.rd.buf) > 0 {
@@ -349,4 +360,19 @@ func (c *Conn) SetPeerWindow(n int) {
 	c.rd.mu.Lock()
 	c.rd.window = n
 	c.rd.mu.Unlock()
+}
+
+// PauseReads makes Read on this end block (even when data is available) until ResumeReads:
+// an application that has stopped reading. A Read already blocked waiting for data is woken up
+// so that it observes the pause before consuming anything.
+func (c *Conn) PauseReads() {
+	c.paused.Store(true)
+	poke(c.rd.wake)
+}
+
+// ResumeReads ends PauseReads.
+func (c *Conn) ResumeReads() {
+	c.paused.Store(false)
+	poke(c.resume)
+	poke(c.rd.wake)
 }
